@@ -18,6 +18,13 @@ func runC01(c *Ctx) error {
 		"the warm-up and longer; regimes walk/flat/ties/up/down/zero-volume/spiky (OHLCV) and walk/zeros/negative/ties/flat/monotone/small-int (plain); " +
 		"observable = every value on every output, compared bit-for-bit (NaNs identified) with the model evaluated in Coq at binary64."
 	if c.Replay != "" {
+		var raw map[string]any
+		if err := readReplayInput(c.Replay, &raw); err == nil {
+			if _, ok := raw["doc_witness"]; ok {
+				c.c01DocWitnesses()
+				return nil
+			}
+		}
 		var in indInput
 		if err := readReplayInput(c.Replay, &in); err != nil {
 			return err
@@ -25,6 +32,7 @@ func runC01(c *Ctx) error {
 		c.replayInd(in, true)
 		return nil
 	}
+	c.c01DocWitnesses()
 	cfgs := c.N(3, 10)
 	for _, typeKey := range typeKeys("indicator") {
 		for k := 0; k < cfgs; k++ {
